@@ -269,13 +269,6 @@ func runC13(c *Ctx) {
 				bad = append(bad, msg)
 			}
 		}
-		recvAndArgs := func(call ssa.Instruction) (ssa.Value, []ssa.Value) {
-			cc := ir.CallOf(call)
-			if cc.IsInvoke() {
-				return cc.Value, cc.Args
-			}
-			return cc.Args[0], cc.Args[1:]
-		}
 		orderOf := func(call ssa.Instruction) *ssa.Global {
 			recv, _ := recvAndArgs(call)
 			if ld, ok := recv.(*ssa.UnOp); ok {
@@ -683,6 +676,7 @@ func runC13(c *Ctx) {
 	})
 
 	c.rule("C13.G2", blockValidatedDoc, func() { c.blockValidated() })
+	c.rule("C13.V1", "every lying peer of a batch is found: "+everyPositionComparedDoc, func() { c.everyPositionCompared() })
 
 	c.rule("C13.O2", "ban-on-misbehaviour sites enumerated: each detection site calls the ban function with its tabled reason (GetBlock handler x2 InvalidBlock; cfheaders handler InvalidFilterHeaderCheckpoint; getUncheckpointedCFHeaders x2 InvalidFilterHeader; resolveConflict x3; OnVersion NoCompactFilters)", func() {
 		type site struct {
